@@ -165,11 +165,11 @@ func (b0 *BLS0ChainScheme) SetPublicKey(publicKey string) error {
 	if err != nil {
 		return err
 	}
-	b0.publicKey = publicKeyBytes
 	pk, err := decodePublicKey(publicKeyBytes)
 	if err != nil {
 		return errors.New("failed to decode public key")
 	}
+	b0.publicKey = publicKeyBytes
 	b0.pubKey = pk
 	return nil
 }
